@@ -368,6 +368,18 @@ def tie_C01(ctx):
 def tie_C04(ctx):
     cases = native_cases(ctx, ["XorShiftRng"], 400, 8000, steps_basis=6, steps_rand=40)
     ctx.absolute("native-step(XorShiftRng)", cases)
+    # a consequence of xor128 that the real code must show (theorem Extra.XorShiftDim.outputs_are_state): four consecutive
+    # outputs ARE the state afterwards — checked on the real generator alone (state read through the serde image)
+    rng, own = ctx.rng, []
+    for _ in range(ctx.scale(40, 600)):
+        own.append([f"new 0 XorShiftRng seed {pick_seed(rng, 16).hex()}"] + ["u32 0"] * rng.randrange(0, 9) + ["u32 0"] * 4 + ["ser 0"])
+    for c, o in zip(own, ctx.real("XorShiftRng: the last four outputs are the state", own)):
+        if o[-1] in ("unsupported", "panic"):
+            continue
+        want = "".join(bytes.fromhex(w)[::-1].hex() for w in o[-5:-1])
+        if o[-1] != want:
+            ctx.fail("xor128", "the state of XorShiftRng is not (x, y, z, w) = its last four outputs, as xor128's shift register requires", c,
+                     expected=want, actual=o[-1])
 
 # ------------------------------------------------------------------ C02 / C03: keystreams
 def tie_C02(ctx):
